@@ -9,6 +9,7 @@
                 CondHolds(scheme, c, P, C)   the named condition holds for the parameter record P (C = certificates)
                 CondFails(scheme, c, P, C)   the named condition is violated (for primality: by an exhibited witness)
                 a parameter set is valid iff every condition of its scheme holds.
+     groups     SafeGroup(p, q, qprime, thr)  OrderIs(p, q, k)            (ecp.h ecpIsSafeGroup: MOV bound inclusive)
      keys       BignPubkeyVal(P, x, y)  BignKeypairVal(P, d, x, y)  (in-range point; 0 < d < q /\ Q = dG)
                 PfokPubkeyVal(P, y)
    P is the record of the logged fields converted by the trace module (numbers: BigNat; *_o: the logged octets).
@@ -241,6 +242,13 @@ CondFails(scheme, c, P, C) ==
   IF c \in {"pprime", "qprime", "nprime"}
   THEN (scheme = "pfok" /\ c = "qprime" /\ ~IsOdd(P.p)) \/ PrimeFails(PrimeField(scheme, c, P), C)
   ELSE ~CondHolds(scheme, c, P, C)
+
+\* ------------------------------------------------------------------ ecp.h ecpIsSafeGroup(ec, mov_threshold)
+\* "order is prime; order # p (Semaev); order does not divide p^i - 1, i <= mov_threshold (MOV)": the bound is inclusive,
+\* threshold 0 imposes no MOV condition.  qprime: the primality of the order as decided with the line's evidence.
+SafeGroup(p, q, qprime, thr) == qprime /\ ~Eq(q, p) /\ MovOk(p, q, thr)
+\* the multiplicative order of p modulo q is exactly k (the generator's claim about a crafted pair)
+OrderIs(p, q, k) == k >= 1 /\ Eq(ModExp(Mod(p, q), OfInt(k), q), Mod(One, q)) /\ MovOk(p, q, k - 1)
 
 \* ------------------------------------------------------------------ keys (bign 6.2.3; bign.h)
 BignPubkeyVal(P, x, y) == EB!IsOnCurve(Curve(P), x, y)                         \* x, y < p and on the curve
